@@ -1984,3 +1984,9 @@ mod test {
         ))
     }
 }
+
+// Kani harnesses for the private `SourceBuf` type live outside the repository.
+#[cfg(kani)]
+mod verif_kani {
+    include!("/verif/kani/incrate/zonefile.rs");
+}
